@@ -14,6 +14,7 @@ def run(rep, tier):
     rep.assume("dimensions in the policy jobs are restricted to {2,3}: assignProxy depends on sizes only through equality")
     fam.add_proxy()
     fam.add_kernels()
+    suvfam_scen.extra(fam, "C09")        # proxy-building entry points: operand order and movable flags as written in the statement
     fam.run(scenario=suvfam_scen.scenario)
 
 
